@@ -90,14 +90,21 @@ Rep6 == EchoBytes(129, 4660, 7, << 222, 173, 190, 239 >>)
 Udp8 == << 0, 53, 0, 53, 0, 8, 0, 0 >>
 
 Q4(ihl, proto, pay) == Ip4Hdr(ihl, ihl * 4 + Len(pay), 64, proto, V4b, V4a) \o pay
-Q6(chain, pay) ==       \* chain: sequence of <<kind, n>>; kind 44 = fragment header
+\* chain: sequence of <<kind, n>>; kind 44 = fragment header; upper: the protocol of the payload
+Q6U(chain, upper, pay) ==
     LET RECURSIVE Build(_, _)
         Build(c, last) ==
             IF c = << >> THEN << >>
             ELSE LET nxt == IF Len(c) = 1 THEN last ELSE c[2][1] IN
                  (IF c[1][1] = 44 THEN Frag6(nxt) ELSE Ext6(nxt, c[1][2])) \o Build(Tail(c), last)
-        first == IF chain = << >> THEN 58 ELSE chain[1][1]
-    IN Ip6Hdr(Len(Build(chain, 58)) + Len(pay), first, 64, V6a, V6a) \o Build(chain, 58) \o pay
+        first == IF chain = << >> THEN upper ELSE chain[1][1]
+    IN Ip6Hdr(Len(Build(chain, upper)) + Len(pay), first, 64, V6a, V6a) \o Build(chain, upper) \o pay
+Q6(chain, pay) == Q6U(chain, 58, pay)
+
+\* upper-layer protocols other than ICMP / ICMPv6 (UDP, TCP, IGMP, the other family's ICMP, No Next Header, reserved):
+\* a datagram of one of these is not an echo request whatever its first octets look like (seeded change C11-15)
+OtherProtos4 == { 17, 6, 2, 58, 0, 255 }
+OtherProtos6 == { 17, 6, 1, 59, 255 }
 
 \* each packet carries a class name used for the signature of a divergence
 Pkts4 ==
@@ -107,6 +114,8 @@ Pkts4 ==
     \cup { << "err-full", Icmp4Err(3, 1, Q4(ihl, 1, Req4)) >> : ihl \in { 5, 6, 15 } }
     \cup { << "err-other", Icmp4Err(3, 3, Q4(5, 17, Udp8)) >>, << "err-other", Icmp4Err(11, 0, Q4(5, 1, SubSeq(Rep4, 1, 8))) >>,
            << "err-short", Icmp4Err(11, 0, Q4(5, 1, SubSeq(Req4, 1, 7))) >>, << "err-short", Icmp4Err(3, 0, SubSeq(Q4(5, 1, Req4), 1, 27)) >> }
+    \cup { << "err-proto", Icmp4Err(t, 0, Q4(ihl, pr, pay)) >> :
+              t \in { 3, 11 }, ihl \in { 5, 6 }, pr \in OtherProtos4, pay \in { Req4, SubSeq(Req4, 1, 8) } }
 
 Pkts6 ==
     { << "reply", Rep6 >>, << "reply", EchoBytes(129, 0, 0, << >>) >>, << "short", SubSeq(Rep6, 1, 7) >>,
@@ -118,6 +127,9 @@ Pkts6 ==
                        << << 0, 0 >>, << 43, 0 >>, << 44, 0 >>, << 60, 0 >> >> } }
     \cup { << "err-hdr8", Icmp6Err(3, 0, Q6(<< >>, SubSeq(Req6, 1, 8))) >>, << "err-short", Icmp6Err(3, 0, Q6(<< >>, SubSeq(Req6, 1, 7))) >>,
            << "err-other", Icmp6Err(1, 4, Q6(<< >>, Rep6)) >>, << "err-short", Icmp6Err(1, 0, SubSeq(Q6(<< >>, Req6), 1, 39)) >> }
+    \cup { << "err-proto", Icmp6Err(t, 0, Q6U(ch, pr, pay)) >> :
+              t \in { 1, 3 }, ch \in { << >>, << << 0, 0 >> >>, << << 44, 0 >> >> }, pr \in OtherProtos6,
+              pay \in { Req6, SubSeq(Req6, 1, 8) } }
 
 ASSUME \A p \in Pkts4 :
           LET vd == Verdict4(p[2]) IN
@@ -133,5 +145,8 @@ ASSUME Verdict4(Icmp4Err(3, 1, Q4(6, 1, Req4))).v = "report"
 ASSUME Verdict6(Icmp6Err(1, 0, Q6(<< << 0, 1 >>, << 44, 0 >> >>, Req6))).v = "report"
 ASSUME Verdict6(Icmp6Err(1, 0, Q6(<< << 0, 1 >>, << 44, 0 >> >>, Req6))).data = << 222, 173, 190, 239 >>
 ASSUME ChecksumOK(Ip4Hdr(6, 60, 64, 1, V4a, V4b))
+\* ... and the same octets behind another protocol number are not
+ASSUME \A p \in Pkts4 \cup Pkts6 : p[1] = "err-proto" => Verdict(p \in Pkts4, p[2]).v = "drop"
+ASSUME Cardinality({ p \in Pkts4 : p[1] = "err-proto" }) = 48 /\ Cardinality({ p \in Pkts6 : p[1] = "err-proto" }) = 60
 
 =============================================================================
